@@ -25,6 +25,11 @@ TRUSTED = ["hook vm::verif::StringStore::intern repeats the 3-line glue of Vm::n
 ALPHA = ["a", "b", "c", "é", "€", "😀", "0", "_", " "]
 
 
+# ties between the function bodies translated from the Rust source on every run (Gen/Fns.lean) and the hand-written models
+THEOREM_MODULES.append("Yarel.Props.FnsTie.Hash")
+REQUIRED_THEOREMS += ['fnv_write_tie']
+
+
 def gen_text(rng, maxlen=4):
     n = rng.below(maxlen + 1)
     return "".join(rng.choice(ALPHA) for _ in range(n))
